@@ -1,7 +1,7 @@
 SPECIFICATION Spec
 CONSTANTS
   Pins = {}
-  EmitRels = {"same", "slice", "sorted"}
+  EmitRels = {"same", "slice"}
   Emit = TRUE
 INVARIANTS NoRace WritesPrivate EmitScn
 CHECK_DEADLOCK FALSE
